@@ -255,3 +255,59 @@ func Get6(opts []Opt6, code uint16) (first []byte, n int) {
 	}
 	return
 }
+
+// ---- "fields the property does not speak about" ---------------------------------------
+//
+// Extra4 / Extra6 enumerate one additional option per case: every option code with a few
+// payload shapes. Checks whose property makes the outcome a function of named fields only
+// (C02: the hardware address; C15: giaddr/ciaddr/flag/reply type; C08/C09: client id and
+// IA_PD contents; ...) re-run base cases with each extra option added and demand the same
+// outcome: whatever such an option says, it is not one of the named fields.
+
+// Extra4 returns the extra DHCPv4 options; except lists codes the caller's base case or
+// property gives a meaning to.
+func Extra4(except ...byte) []Opt4 {
+	skip := map[byte]bool{0: true, 255: true, 53: true, 52: true} // pad, end, message type, overload
+	for _, c := range except {
+		skip[c] = true
+	}
+	var out []Opt4
+	for c := 1; c < 255; c++ {
+		if skip[byte(c)] {
+			continue
+		}
+		out = append(out, Opt4{Code: byte(c), Data: []byte{1}})
+		out = append(out, Opt4{Code: byte(c), Data: []byte{10, 0, 0, 11}})
+		long := make([]byte, 64)
+		for i := range long {
+			long[i] = byte(0xc0 + i%7)
+		}
+		out = append(out, Opt4{Code: byte(c), Data: long})
+	}
+	return out
+}
+
+// Extra6 returns the extra DHCPv6 options (codes 1..160 and a few high ones).
+func Extra6(except ...uint16) []Opt6 {
+	skip := map[uint16]bool{1: true, 2: true, 3: true, 4: true, 9: true, 25: true}
+	for _, c := range except {
+		skip[c] = true
+	}
+	codes := []uint16{}
+	for c := uint16(5); c <= 160; c++ {
+		codes = append(codes, c)
+	}
+	codes = append(codes, 255, 256, 4096, 65535)
+	var out []Opt6
+	for _, c := range codes {
+		if skip[c] {
+			continue
+		}
+		out = append(out, Opt6{Code: c})
+		out = append(out, Opt6{Code: c, Data: []byte{0, 1}})
+		long := make([]byte, 16)
+		long[0], long[1], long[15] = 0x20, 0x01, 1
+		out = append(out, Opt6{Code: c, Data: long})
+	}
+	return out
+}
